@@ -13,7 +13,7 @@ ROOT = os.path.dirname(os.path.dirname(os.path.abspath(__file__)))
 # regex metacharacters are excluded from variants used by engines that read through the cache.
 GAMMAS = {
     "g0": {"k1": "e1", "k2": "e2", "z1": "zA", "a1": "aB", "z2": "zC", "a2": "aD", "t1": "t1", "t2": "t2", "t3": "t3"},
-    "g1": {"k1": "eth1", "k2": "eth10", "z1": "a", "a1": "b", "z2": "a", "a2": "bb", "t1": "x", "t2": "y", "t3": "z"},
+    "g1": {"k1": "eth1", "k2": "eth10", "z1": "a", "a1": "b", "z2": "aa", "a2": "bb", "t1": "x", "t2": "y", "t3": "z"},
     "g2": {"k1": "x_y", "k2": "x", "z1": "a_b", "a1": "c", "z2": "a", "a2": "b_c", "t1": "1", "t2": "1_1", "t3": "11"},
     "g3": {"k1": "a/b", "k2": "a", "z1": "p:q", "a1": "r s", "z2": "p", "a2": "q=r", "t1": "a/b", "t2": "b", "t3": "a"},
 }
@@ -80,6 +80,46 @@ LEAVES = [
     L("c.z", [["ch", []], ["alphax", []], ["z", []]], "string", S, fam=["choice"]),
 ]
 
+# state (config false) leaves, only used by the read / sync engines
+LEAVES += [
+    L("i1.oper", [item("k1"), ["oper", []]], "string", S, entry="i1", state=True, fam=["state"]),
+    L("i2.oper", [item("k2"), ["oper", []]], "string", S, entry="i2", state=True, fam=["state"]),
+    L("s.uptime", [["sys", []], ["uptime", []]], "uint32", ["u:1", "u:2"], state=True, fam=["state"]),
+]
+
+# request / delete nodes (C13, C14): abstract node id -> path (list elements may carry all, some or no keys)
+def N(id, elems):
+    return dict(id=id, elems=elems)
+
+NODES = [
+    N("/", []),
+    N("plain", [["plain", []]]), N("plain/a", [["plain", []], ["a", []]]), N("plain/ab", [["plain", []], ["ab", []]]), N("plain/sub", [["plain", []], ["sub", []]]),
+    N("item", [["item", []]]), N("item[k1]", [item("k1")]), N("item[k2]", [item("k2")]),
+    N("item[k1]/val", [item("k1"), ["val", []]]), N("item[k2]/val", [item("k2"), ["val", []]]),
+    N("sys", [["sys", []]]), N("sys/host", [["sys", []], ["host", []]]), N("sys/hostname", [["sys", []], ["hostname", []]]),
+    N("sys/svc", [["sys", []], ["svc", []]]), N("sys/tags", [["sys", []], ["tags", []]]),
+    N("ch", [["ch", []]]), N("ch/alpha", [["ch", []], ["alpha", []]]), N("ch/alphax", [["ch", []], ["alphax", []]]),
+    N("pair", [["pair", []]]), N("pair[z1]", [["pair", [["zone", "$z1"]]]]), N("pair[z1,a1]", [PAIR1]), N("pair[z2,a2]", [PAIR2]),
+    N("item[k1]/oper", [item("k1"), ["oper", []]]), N("sys/uptime", [["sys", []], ["uptime", []]]),
+]
+
+
+def under(leaf, node, gamma):
+    """structural at-or-below under a gamma (keys missing in the node's element are wildcards)"""
+    le, ne = leaf["elems"], node["elems"]
+    if len(ne) > len(le):
+        return False
+    res = lambda v: gamma.get(v[1:], v) if v.startswith("$") else v
+    for a, b in zip(le, ne):
+        if a[0] != b[0]:
+            return False
+        ak = {k: res(v) for k, v in a[1]}
+        for k, v in b[1]:
+            if ak.get(k) != res(v):
+                return False
+    return True
+
+
 ENTRIES = {
     "i1": [item("k1")], "i2": [item("k2")], "p1": [PAIR1], "p2": [PAIR2], "t1": [TRI1],
 }
@@ -88,7 +128,7 @@ def tla_str(s): return '"' + s.replace('\\', '\\\\').replace('"', '\\"') + '"'
 def tla_set(xs): return "{" + ", ".join(tla_str(x) for x in xs) + "}"
 
 def main():
-    uni = dict(gammas=GAMMAS, entries=ENTRIES, leaves=LEAVES)
+    uni = dict(gammas=GAMMAS, entries=ENTRIES, leaves=LEAVES, nodes=NODES)
     os.makedirs(os.path.join(ROOT, "schema"), exist_ok=True)
     with open(os.path.join(ROOT, "schema", "universe.json"), "w") as f:
         json.dump(uni, f, indent=1, sort_keys=True)
@@ -112,6 +152,16 @@ def main():
     out.append("UBad == {" + ", ".join("<<%s, %s, %s>>" % (tla_str(l["id"]), tla_str(b[0]), tla_str(b[1])) for l in LEAVES for b in l["bad"]) + "}")
     out.append("UDefault == [l \\in AllLeaf |-> CASE " +
                " [] ".join("l = %s -> %s" % (tla_str(l["id"]), tla_str(l["default"] or "-")) for l in LEAVES) + "]")
+    out.append("AllNode == " + tla_set(n["id"] for n in NODES))
+    # structural containment is gamma independent as long as gamma maps distinct placeholders to distinct values
+    g0 = GAMMAS["g0"]
+    for gname, g in GAMMAS.items():
+        for n in NODES:
+            for l in LEAVES:
+                assert under(l, n, g) == under(l, n, g0), (gname, n["id"], l["id"])
+    out.append("UUnder == [n \\in AllNode |-> CASE " +
+               " [] ".join("n = %s -> %s" % (tla_str(n["id"]), tla_set(l["id"] for l in LEAVES if under(l, n, g0))) for n in NODES) + "]")
+    out.append("UStateLeaf == " + tla_set(l["id"] for l in LEAVES if l["state"]))
     for fam in fams:
         out.append("Fam_%s == %s" % (fam, tla_set(l["id"] for l in LEAVES if fam in l["fam"])))
     out.append("=============================================================================")
